@@ -74,11 +74,11 @@ def gen_params(rng, kind, mode):
     num = dyadic if mode == "Q" else decimal
     if kind == "constant":
         p = {"dt": num(rng)}
-        p["t_start"] = rng.choice([None, None, num(rng) * rng.choice([0.5, 1, 4]), -num(rng)])
+        p["t_start"] = rng.choice([None, None, num(rng) * rng.choice([0.5, 1, 4]), -num(rng), 0, 0.0])
     elif kind == "logarithmic":
         f = rng.choice([1.0, 1.5, 2.0, 1.25, 3.0]) if mode == "Q" else rng.choice([1.0, 1.1, 1.3, 2.0, 1.01, 1.7])
         p = {"dt_initial": num(rng), "factor": f}
-        p["t_start"] = rng.choice([None, None, num(rng)])
+        p["t_start"] = rng.choice([None, None, num(rng), 0, 0.0, -num(rng)])
     elif kind == "fixed":
         n = rng.choice([0, 1, 1, 2, 3, 5, 8, 12])
         vals, cur = [], (num(rng) if rng.random() < 0.7 else -num(rng))
@@ -129,11 +129,17 @@ class RealRaised(Exception):
     """the real class raised on a valid schedule: (queries so far, answers so far, text)"""
 
 
-def real_run(kind, p, t0, n_queries, rng, hist, via_parse=False, use_copy=False, queries=None):
-    """run the real class; returns (queries, answers) with answers[0] = initialize(t0)"""
+def real_run(kind, p, t0, n_queries, rng, hist, via_parse=False, use_copy=False, queries=None, warmup=None):
+    """run the real class; returns (queries, answers) with answers[0] = initialize(t0).
+    `warmup` = (t0w, [queries]): an EARLIER run on the same object (a tracker reused for a second simulation);
+    `initialize` starts a schedule afresh, so the recorded run must not depend on it"""
     qsx, answers = [], []
     try:
         obj = make(kind, p, via_parse, use_copy)
+        if warmup is not None:
+            obj.initialize(warmup[0])
+            for tq in warmup[1]:
+                obj.next(tq)
         a0 = float(obj.initialize(t0))
         answers.append(a0)
         t = t0
@@ -292,9 +298,11 @@ def branch_flags(kind, p, t0, queries, answers):
     return flags
 
 
-def model_request(kind, p, t0, queries, mode):
+def model_request(kind, p, t0, queries, mode, warmup=None):
     enc = q if mode == "Q" else fbits
     a = {"mode": mode, "kind": kind, "t0": enc(t0), "queries": [enc(x) for x in queries]}
+    if warmup is not None:  # an earlier run on the same object (what survives `initialize` is modelled as the code has it)
+        a["warmup"] = {"t0": enc(warmup[0]), "queries": [enc(x) for x in warmup[1]]}
     for k, v in p.items():
         if k == "interrupts":
             a[k] = [enc(x) for x in v]
@@ -448,14 +456,28 @@ def run(ctx):
         t0 = rng.choice([0.0, 0.0, dyadic(rng) if pmode == "Q" else decimal(rng)])
         if kind == "geometric" and rng.random() < 0.1:
             t0 = -t0
+        if kind != "geometric" and rng.random() < 0.2:
+            t0 = -(dyadic(rng) if pmode == "Q" else decimal(rng))  # a run that starts at a negative time
         via_parse = rng.random() < 0.15
         use_copy = rng.random() < 0.15
         nq = rng.choice([1, 2, 4, 8, 16, 30])
         case = {"kind": kind, "params": p, "t0": t0, "queries": [], "numbers": pmode,
                 "via_parse": via_parse, "use_copy": use_copy}
+        if rng.random() < 0.25:
+            # the object already served an earlier run (ending before, at, or beyond the start of this one)
+            tw = t0 - rng.choice([0.0, 1.0, 0.5]) if rng.random() < 0.5 else t0
+            hint = (p.get("dt") or p.get("dt_initial") or p.get("scale") or 1.0)
+            wq, cur = [], tw
+            for _ in range(rng.choice([1, 2, 5, 12])):
+                cur = cur + hint * rng.choice([0.5, 1, 2, 7.5, 100])
+                if kind == "geometric" and cur > 1e12:
+                    break
+                wq.append(cur)
+            case["warmup"] = [tw, wq]
+            ctx.hist("warm-up", f"{kind}:{len(wq)} queries")
         ctx.monitor_evals += 1
         try:
-            queries, answers = real_run(kind, p, t0, nq, rng, ctx.hist, via_parse, use_copy)
+            queries, answers = real_run(kind, p, t0, nq, rng, ctx.hist, via_parse, use_copy, warmup=case.get("warmup"))
         except RealRaised as exc:
             mf = raised_failure(case, exc)
             ctx.count(mf["case"], nontrivial=False, leg=f"{kind}")
@@ -472,10 +494,10 @@ def run(ctx):
         mf = judge(case, answers)
         if mf:
             ctx.monitor_fail(mf["leg"], mf["case"], mf["observed"], mf["expected"], mf["what"], key=mf["key"])
-        iq = batch.add("c09.run", model_request(kind, p, t0, queries, "Q"))
-        jf = None if kind == "geometric" else batch.add("c09.run", model_request(kind, p, t0, queries, "F"))
+        iq = batch.add("c09.run", model_request(kind, p, t0, queries, "Q", case.get("warmup")))
+        jf = None if kind == "geometric" else batch.add("c09.run", model_request(kind, p, t0, queries, "F", case.get("warmup")))
         jg = None
-        if kind == "geometric":
+        if kind == "geometric" and "warmup" not in case:  # (the code-model handler starts from a fresh object)
             req = geomcode_request(p, t0, queries, answers)
             if req is None:
                 ctx.disagree("correspondence", case, "a positive finite answer", answers,
@@ -498,7 +520,8 @@ def run_case(c, rng=None):
     """the recorded case on the real code: monitor failure dict or None, and the answers"""
     try:
         _, answers = real_run(c["kind"], c["params"], c["t0"], 0, rng, lambda *a, **k: None,
-                              c.get("via_parse", False), c.get("use_copy", False), queries=c["queries"])
+                              c.get("via_parse", False), c.get("use_copy", False), queries=c["queries"],
+                              warmup=c.get("warmup"))
     except RealRaised as exc:
         return raised_failure(c, exc), exc.args[1]
     return judge(c, answers), answers
